@@ -263,7 +263,7 @@ def run(ctx, replay=None):
     with open(tf, "w") as fo:
         for t in traces:
             fo.write(open(t).read())
-    rejs = ctx.validate("TraceDiff", tf)
+    rejs = ctx.validate("TraceDiff", tf, max_rej=2)
     rejs.sort(key=lambda r: r.get("pos") or 0)
     ctx.handle_rejections(rejs[:10], behs, replay_fn)       # the shortest ones; any single one decides the verdict
     return ctx.finish(
